@@ -181,6 +181,39 @@ fn main() {
             }
         }
     }
+    // directed: sorted index; a segment receives a delete in the commit that creates it and in a later one; after each commit and
+    // the writer's own collection no <segment>.store.temp may remain (F102 class)
+    for threads in 1..=2usize {
+        use tantivy::{doc, IndexWriter, Term};
+        let vd = VerifDirectory::new();
+        let (schema, f) = e1::schema();
+        let desc = json!({"directed": "index sorted by id; adds + delete_term in one commit, gc; a delete in the next commit, gc", "threads": threads});
+        let r = guarded(|| -> tantivy::Result<Vec<(String, Vec<String>)>> {
+            let settings = tantivy::IndexSettings { sort_by_field: Some(tantivy::IndexSortByField { field: "id".to_string(), order: tantivy::Order::Desc }), ..Default::default() };
+            let index = Index::create(vd.clone(), schema.clone(), settings)?;
+            let mut w: IndexWriter<TantivyDocument> = index.writer_with_num_threads(threads, 15_000_000 * threads)?;
+            w.set_merge_policy(Box::new(tantivy::indexer::NoMergePolicy));
+            let mut obs = vec![];
+            for i in 0..6u64 { w.add_document(doc!(f.id => i, f.tag => format!("t{}", i % 3), f.body => "x y"))?; }
+            w.delete_term(Term::from_field_text(f.tag, "t0"));
+            w.commit()?;
+            w.garbage_collect_files().wait()?;
+            obs.push(("after the commit that created the segment with a delete".to_string(), vd.file_names()));
+            w.delete_term(Term::from_field_text(f.tag, "t1"));
+            w.commit()?;
+            w.garbage_collect_files().wait()?;
+            obs.push(("after a later commit that deleted from the same segment".to_string(), vd.file_names()));
+            Ok(obs)
+        });
+        match r {
+            Ok(Ok(obs)) => for (when, files) in obs {
+                let temps: Vec<&String> = files.iter().filter(|n| n.ends_with(".store.temp")).collect();
+                out.spec_checked(temps.is_empty(), json!({"what": "a temporary doc store survives a returned commit and the writer's garbage collection on a sorted index", "when": when, "orphans": temps, "case": desc}));
+            },
+            other => out.spec_checked(false, json!({"what": "directed sorted-index scenario failed", "result": format!("{:?}", other.map(|r| r.map(|_| ()))), "case": desc})),
+        }
+        out.count("directed_sorted_index_scenarios", 1);
+    }
     // directed: the replace of meta.json fails (end of a merge / commit that empties a segment), then the same writer collects
     for variant in ["merge", "commit"] {
         let m = e1::meta_write_failure_then_gc(variant);
